@@ -555,6 +555,13 @@ func (v *View) Set(databag DataBag, request string, value interface{}) error {
 		suffixes[strings.Join(match.suffixParts, ".")] = struct{}{}
 	}
 
+	// sort again now that the placeholders are filled in from the value: an
+	// instance of a placeholder path can be less nested than a literal path that
+	// sorted before the placeholder
+	sort.SliceStable(expandedMatches, func(x, y int) bool {
+		return expandedMatches[x].storagePath < expandedMatches[y].storagePath
+	})
+
 	// check if value is entirely used. If not, we fail so this is consistent
 	// with doing the same write individually (one branch at a time)
 	if err := checkForUnusedBranches(value, suffixes); err != nil {
